@@ -80,10 +80,7 @@ Proof.
   pose proof (regather_cons m c F P T D F (length idxs) idf (fun j => nth j idxs 0) HC
                 (fun f Hf => Hf) (fun t Ht => nth_lt_of_forallb idxs T t E Ht)) as HR.
   destruct (regather F P (length idxs) D idf (fun j => nth j idxs 0) m c) as [m1 c1]. cbn [fst snd] in HR.
-  destruct be.
-  - eapply np_fin_cons; eassumption.
-  - inversion H; subst; exact HR.
-  - destruct idxs; [discriminate|]. inversion H; subst; exact HR.
+  eapply fin_cons; eassumption.
 Qed.
 
 Lemma step_count_lt F b j : 0 < b -> j < step_count F b -> j * b < F.
@@ -148,21 +145,19 @@ Proof.
   destruct be.
   - destruct ix; eapply Hgen; exact H.
   - destruct (P * T * D =? 0) eqn:E0.
-    + apply Nat.eqb_eq in E0. destruct ix; (eapply Hempty; [exact E0|exact H|discriminate]).
+    + apply Nat.eqb_eq in E0. destruct F as [|F0]; destruct ix as [|i0 ix']; try discriminate;
+        (eapply Hempty; [exact E0|exact H|discriminate]).
     + destruct ix; eapply Hgen; exact H.
-  - destruct ix; [discriminate|]. destruct (P * T * D =? 0) eqn:E0.
-    + apply Nat.eqb_eq in E0. eapply Hempty; [exact E0|exact H|discriminate].
+  - destruct ix as [|i0 ix']; [discriminate|]. destruct (P * T * D =? 0) eqn:E0.
+    + apply Nat.eqb_eq in E0. destruct F; (eapply Hempty; [exact E0|exact H|discriminate]).
     + eapply Hgen; exact H.
 Qed.
 Lemma dropout_cons be F P T D sel m c m' c' :
   Cons m c F P T D -> dropout be F P T D sel m c = Ok (m', c') -> Cons m' c' (length sel) P T D.
 Proof.
   intros HC H. unfold dropout in H.
-  assert (Hgen : (if negb (forallb (fun i => i <? F) sel) then Err Index else gather_frames be F P T D sel m c) = Ok (m', c') ->
-                 Cons m' c' (length sel) P T D).
-  { intros H'. destruct (forallb (fun i => i <? F) sel) eqn:E; cbn [negb] in H'; [|discriminate].
-    eapply gather_frames_cons; try eassumption. intros j Hj. eapply nth_lt_of_forallb; eassumption. }
-  destruct be; [apply Hgen; exact H|apply Hgen; exact H|]. destruct F; [discriminate|apply Hgen; exact H].
+  destruct (forallb (fun i => i <? F) sel) eqn:E; cbn [negb] in H; [|discriminate].
+  eapply gather_frames_cons; try eassumption. intros j Hj. eapply nth_lt_of_forallb; eassumption.
 Qed.
 
 (* ---- bbox ---- *)
@@ -185,7 +180,6 @@ Lemma bbox_np_cons h F P T D m c m' c' :
 Proof.
   intros HC H. pose proof HC as [_ [_ [_ [_ Hcell]]]]. unfold bbox_np in H.
   destruct (comp_ranges h 0) as [|r0 rs'] eqn:Ers; [discriminate|]. rewrite <- Ers in H.
-  destruct (existsb (fun r => snd r =? 0) (comp_ranges h 0)); [discriminate|].
   destruct (T <? total_points h) eqn:ET; [discriminate|]. apply Nat.ltb_ge in ET.
   destruct (D =? 0) eqn:ED; [discriminate|]. apply Nat.eqb_neq in ED.
   rewrite comp_ranges_length in H.
@@ -224,12 +218,13 @@ Lemma augment2d_cons be F P T D ok m c m' c' :
 Proof.
   intros HC H. pose proof HC as [Hm [Hc [Wm [Wc Hcell]]]]. unfold augment2d in H.
   destruct (D <? 2) eqn:ED; [discriminate|]. apply Nat.ltb_ge in ED.
+  assert (HR : Cons (tab4 F P T D (fun f p t _ => all_lt D (fun k => get4 m f p t k))) c F P T D).
+  { split; [apply tab4_shape|]. split; [exact Hc|]. split; [apply tab4_wf|]. split; [exact Wc|].
+    intros f p t d Hf Hp Ht Hd. rewrite get4_tab4 by assumption. apply all_lt_const; [lia|]. intros k Hk. apply Hcell; assumption. }
   destruct be.
-  - eapply np_fin_cons; [|exact H].
-    split; [apply tab4_shape|]. split; [exact Hc|]. split; [apply tab4_wf|]. split; [exact Wc|].
-    intros f p t d Hf Hp Ht Hd. rewrite get4_tab4 by assumption. apply all_lt_const; [lia|]. intros k Hk. apply Hcell; assumption.
-  - destruct ok; [inversion H; subst; exact HC|discriminate].
-  - inversion H; subst; exact HC.
+  - eapply np_fin_cons; [exact HR|exact H].
+  - destruct ok; [injection H as <- <-; exact HR|discriminate].
+  - injection H as <- <-; exact HR.
 Qed.
 
 (* ---- normalisations (need the property's preconditions) ---- *)
